@@ -17,7 +17,7 @@ TRUSTED_BASE = [
 ]
 ASSUMPTIONS = ['the conservation theorem assumes the shape wfDx of the input tree; that the builder only produces such trees is checked on the implementation (oracle on the pre-resolution tree), not proved',
                'the matching rule (nearest enclosing element, document order, used once) is the model itself; it is tied to the code by the post stage, not proved against a separate specification',
-               '"no displaced attribute survives" and "each block is used at most once, nearest first" are checked by the oracle and the stages, not theorems']
+               '"each block is used at most once, nearest first" is the model itself, checked by the oracle and the stages, not a theorem against a separate specification']
 
 FOOTNOTE_DOCS = [
     'a {{FOOTNOTE 1}} b {{FOOTNOTE 2}}\nFOOTNOTE 1\n  one\nFOOTNOTE 2\n  two\n',
@@ -210,7 +210,7 @@ def replay(obj):
     return 0 if ok else 1
 
 LEVEL_TEXT = ('Proof over the Gallina model of resolve_displaced_content, for every XML tree: if it returns, no displaced placeholder element is left '
-              '(C14_no_displaced_element_survives); and no content vanishes: for every tree of the shape the builder produces (a displaced block '
+              '(C14_no_displaced_element_survives), and for every tree of the builder\'s shape no displaced attribute either - every reference is reached and loses it (C14_no_displaced_attribute_survives); and no content vanishes: for every tree of the shape the builder produces (a displaced block '
               'holds elements only, has no displaced attribute and no tail text) the elements of the result - tag, attributes apart from the '
               'internal one, direct text - are, as a multiset, the elements of the input with every unused block turned into its "FOOTNOTE m" '
               'paragraph, minus the used blocks (whose children all stay, inside the note), plus one "(content missing)" paragraph per reference '
